@@ -8,7 +8,7 @@
    only thing asked of them is the round trip of the one duration that was given with -t).
 
    The declarative side is written out here, independently of the model's functions. *)
-From Mage Require Import Base.Strs Model.Flags Proof.Flags_facts.
+From Mage Require Import Base.Strs Model.Flags Proof.FlagPkg_facts Proof.Flags_facts.
 From Mage Require Model.Constraints Proof.Flags_build.   (* C10's model of file selection and Compile; names qualified *)
 
 (* ---- the property sentence, said directly ------------------------------------------------- *)
@@ -41,9 +41,11 @@ Variable dur_string : Z -> string.             (* time.Duration.String *)
 Variable join : string -> string -> string.    (* filepath.Join *)
 
 (* what the generated main ends up with, through mage / started directly *)
-Notation through_mage lay f e := (eff_of (mage_args parse_dur dur_string join true lay f e)).
+(* [f]: the flags on mage's command line; [cf]: the flags the COMPILED PROGRAM finds among the words it is handed -
+   only possible behind a "--" that the front end consumed (C11_dashdash); no_cflags otherwise *)
+Notation through_mage lay f cf e := (eff_of (mage_args parse_dur dur_string join true lay f cf e)).
 Notation directly cf e := (eff_of (bin_args parse_dur cf e)).
-Notation target_env lay f e := (mage_target_env parse_dur dur_string join true lay f e).
+Notation target_env lay f cf e := (mage_target_env parse_dur dur_string join true lay f cf e).
 
 (* the duration given with -t survives String() / ParseDuration (asked only of that one value) *)
 Definition duration_round_trip (f : flags) : Prop :=
@@ -54,7 +56,12 @@ Definition nothing_explicitly_off (f : flags) : Prop :=
   f_l f <> Some false /\ f_h f <> Some false /\ (forall d, f_t f = Some d -> (0 < d)%Z).
 
 (* the options the compiled binary also has, as its flags ... *)
-Definition same_flags (f : flags) : cflags := {| c_v := f_v f; c_l := f_l f; c_h := f_h f; c_t := f_t f |}.
+(* the binary's own flag where it has one, else the front end's (on one command line the later flag wins) *)
+Definition same_flags (f : flags) (cf : cflags) : cflags :=
+  {| c_v := match c_v cf with Some b => Some b | None => f_v f end;
+     c_l := match c_l cf with Some b => Some b | None => f_l f end;
+     c_h := match c_h cf with Some b => Some b | None => f_h f end;
+     c_t := match c_t cf with Some d => Some d | None => f_t f end |}.
 (* ... and as variables *)
 Definition as_variables (f : flags) : env :=
   match f_v f with Some b => [("MAGEFILE_VERBOSE", if b then "1" else "0")] | None => [] end ++
@@ -66,22 +73,22 @@ Definition as_variables (f : flags) : env :=
    (verbose, list, help, timeout of the generated main are equal) - for every environment,
    -v=false included.  LIMIT (see C11_same_effect_explicit_off_refuted): an explicit -l=false,
    -h=false, -t 0 or a negative -t. *)
-Theorem C11_same_effect : forall lay f e, duration_round_trip f -> nothing_explicitly_off f ->
-  through_mage lay f e = directly (same_flags f) e.
+Theorem C11_same_effect : forall lay f cf e, duration_round_trip f -> nothing_explicitly_off f ->
+  through_mage lay f cf e = directly (same_flags f cf) e.
 Proof. exact (same_effect_flags parse_dur dur_string join). Qed.
 
 (* ... and the effect they have as MAGEFILE_* variables of the compiled binary: no limit. *)
-Theorem C11_same_effect_variables : forall lay f e, duration_round_trip f ->
-  through_mage lay f e = directly no_cflags (e ++ as_variables f).
+Theorem C11_same_effect_variables : forall lay f cf e, duration_round_trip f ->
+  through_mage lay f cf e = directly cf (e ++ as_variables f).
 Proof. exact (same_effect_vars parse_dur dur_string join). Qed.
 
 (* inside a target started through mage the accessors report the effective values: for every
    inherited value of the variables (garbage included) and every flag value (-v=false, -debug=false,
    -gocmd "" included).  -debug and -gocmd exist only on the front end; they reach targets this way. *)
-Theorem C11_accessors : forall lay f e,
-  mg_verbose (target_env lay f e) = effective_verbose f e /\
-  mg_debug (target_env lay f e) = effective_debug f e /\
-  mg_gocmd (target_env lay f e) = effective_gocmd f e.
+Theorem C11_accessors : forall lay f cf e,
+  mg_verbose (target_env lay f cf e) = (match c_v cf with Some b => b | None => effective_verbose f e end) /\
+  mg_debug (target_env lay f cf e) = effective_debug f e /\
+  mg_gocmd (target_env lay f cf e) = effective_gocmd f e.
 Proof. exact (accessors_mage parse_dur dur_string join). Qed.
 
 (* inside a target of a compiled binary started directly *)
@@ -93,19 +100,20 @@ Proof. exact (accessors_bin parse_dur). Qed.
 
 (* every variable that is not a MAGEFILE_* variable reaches the target unchanged: GOOS, GOARCH,
    empty values, values with '=', absent stays absent; also for the code before the repair *)
-Theorem C11_env_passthrough : forall fixed lay f e k, is_magefile_variable k = false ->
-  lookup k (mage_target_env parse_dur dur_string join fixed lay f e) = lookup k e.
+Theorem C11_env_passthrough : forall fixed lay f cf e k, is_magefile_variable k = false ->
+  lookup k (mage_target_env parse_dur dur_string join fixed lay f cf e) = lookup k e.
 Proof. exact (env_passthrough parse_dur dur_string join). Qed.
 
 (* which MAGEFILE_* variables may differ, and how: only the six forwarded ones *)
-Theorem C11_magefile_vars_only_added : forall lay f e,
-  (forall k, is_forwarded_variable k = false -> lookup k (target_env lay f e) = lookup k e) /\
-  lookup "MAGEFILE_VERBOSE" (target_env lay f e) = Some (if effective_verbose f e then "1" else "0") /\
-  lookup "MAGEFILE_DEBUG" (target_env lay f e) = Some (if effective_debug f e then "1" else "0") /\
-  lookup "MAGEFILE_GOCMD" (target_env lay f e) = Some (effective_gocmd f e) /\
-  lookup "MAGEFILE_LIST" (target_env lay f e) = (if flag_or (f_l f) false then Some "1" else lookup "MAGEFILE_LIST" e) /\
-  lookup "MAGEFILE_HELP" (target_env lay f e) = (if flag_or (f_h f) false then Some "1" else lookup "MAGEFILE_HELP" e) /\
-  lookup "MAGEFILE_TIMEOUT" (target_env lay f e) =
+Theorem C11_magefile_vars_only_added : forall lay f cf e,
+  (forall k, is_forwarded_variable k = false -> lookup k (target_env lay f cf e) = lookup k e) /\
+  lookup "MAGEFILE_VERBOSE" (target_env lay f cf e) =
+    Some (if (match c_v cf with Some b => b | None => effective_verbose f e end) then "1" else "0") /\
+  lookup "MAGEFILE_DEBUG" (target_env lay f cf e) = Some (if effective_debug f e then "1" else "0") /\
+  lookup "MAGEFILE_GOCMD" (target_env lay f cf e) = Some (effective_gocmd f e) /\
+  lookup "MAGEFILE_LIST" (target_env lay f cf e) = (if flag_or (f_l f) false then Some "1" else lookup "MAGEFILE_LIST" e) /\
+  lookup "MAGEFILE_HELP" (target_env lay f cf e) = (if flag_or (f_h f) false then Some "1" else lookup "MAGEFILE_HELP" e) /\
+  lookup "MAGEFILE_TIMEOUT" (target_env lay f cf e) =
     (if (0 <? flag_or (f_t f) 0)%Z then Some (dur_string (flag_or (f_t f) 0%Z)) else lookup "MAGEFILE_TIMEOUT" e).
 Proof. exact (magefile_vars parse_dur dur_string join). Qed.
 
@@ -124,6 +132,56 @@ Theorem C11_cwd_magefiles_directory : forall lay f e,
   let d := match given_nonempty (f_d f) with Some d => d | None => "." end in
   mage_build_dir dur_string join lay f e = join d "magefiles" /\ mage_cwd dur_string join lay f e = d.
 Proof. exact (cwd_magefiles_dir dur_string join). Qed.
+
+(* ---- whole command lines (Model/FlagPkg.v transcribes Go's flag package; [consumed sp pre a]: the parser eats pre
+   wholly as flags and flag values, making the assignments a) ------------------------------------------------- *)
+(* the first plain word ends the flags: without "--" the compiled program gets no flag, only words - flag-like ones
+   behind the first target included *)
+Theorem C11_command_line : forall lay pre a t post e,
+  consumed parse_dur front_spec pre a -> classify t = WNonFlag ->
+  mage_cmdline parse_dur dur_string join true lay (pre ++ t :: post) e =
+    Runs (mage_args parse_dur dur_string join true lay (flags_of a) no_cflags e)
+         (mage_target_env parse_dur dur_string join true lay (flags_of a) no_cflags e) (t :: post).
+Proof. exact (mage_cmdline_words parse_dur dur_string join). Qed.
+
+(* what stands behind a "--" is the compiled program's own command line, in the environment RunCompiled built:
+   `mage F -- B words` = the compiled binary given `B words` there *)
+Theorem C11_dashdash : forall fixed lay pre a post e,
+  consumed parse_dur front_spec pre a -> flag_or (get_bool "h" a) false = false ->
+  mage_cmdline parse_dur dur_string join fixed lay (pre ++ "--" :: post) e =
+    binary_cmdline parse_dur post (child_env dur_string join fixed lay (flags_of a) e).
+Proof. exact (mage_cmdline_dashdash parse_dur dur_string join). Qed.
+
+(* ... so the record-level theorems above apply with cf = the flags found there (C11_same_effect: the same effect as
+   the compiled binary given those flags), the last -t / -v / -l / -h given wins ... *)
+Theorem C11_dashdash_runs : forall lay pre a post e a' ws,
+  consumed parse_dur front_spec pre a -> flag_or (get_bool "h" a) false = false ->
+  cl_parse parse_dur gen_spec post = POk a' ws ->
+  mage_cmdline parse_dur dur_string join true lay (pre ++ "--" :: post) e =
+    Runs (mage_args parse_dur dur_string join true lay (flags_of a) (cflags_of_assigns a') e)
+         (mage_target_env parse_dur dur_string join true lay (flags_of a) (cflags_of_assigns a') e) ws.
+Proof. exact (mage_cmdline_dashdash_runs parse_dur dur_string join). Qed.
+
+Theorem C11_last_flag_wins : forall a (b : bool) (d : Z),
+  c_v (cflags_of_assigns (a ++ [("v", VB b)])) = Some b /\ c_l (cflags_of_assigns (a ++ [("l", VB b)])) = Some b /\
+  c_h (cflags_of_assigns (a ++ [("h", VB b)])) = Some b /\ c_t (cflags_of_assigns (a ++ [("t", VD d)])) = Some d.
+Proof. exact cflags_last_wins. Qed.
+
+(* ... `-- -x` (any flag error there) is rejected with status 2 and nothing runs, as on mage's own command line ... *)
+Theorem C11_dashdash_rejected : forall lay pre a post e a',
+  consumed parse_dur front_spec pre a -> flag_or (get_bool "h" a) false = false ->
+  cl_parse parse_dur gen_spec post = PBad a' ->
+  mage_cmdline parse_dur dur_string join true lay (pre ++ "--" :: post) e = Rejected 2.
+Proof. exact (mage_cmdline_dashdash_rejected parse_dur dur_string join). Qed.
+
+Theorem C11_command_line_rejected : forall lay ws e a,
+  cl_parse parse_dur front_spec ws = PBad a -> mage_cmdline parse_dur dur_string join true lay ws e = Rejected 2.
+Proof. exact (mage_cmdline_rejected parse_dur dur_string join). Qed.
+
+(* ... and `-- -l` lists *)
+Theorem C11_list_mode : forall a nargs d e, a_list a = true -> (a_help a && Nat.eqb nargs 0) = false ->
+  gm_mode a nargs d e = MList.
+Proof. exact list_mode. Qed.
 End Ext.
 
 (* PARTIAL (streams): "read the caller's stdin; stdout and stderr bytes arrive unaltered and in
@@ -141,8 +199,8 @@ Proof. exact streams_wired_each. Qed.
 (* the code before a52b92f / 3a2321a (value appended only when true) violates C11_accessors *)
 Theorem C11_before_repair_refuted : forall parse_dur dur_string join,
   exists lay f e,
-    mg_verbose (mage_target_env parse_dur dur_string join false lay f e) <> effective_verbose f e /\
-    mg_debug (mage_target_env parse_dur dur_string join false lay f e) <> effective_debug f e.
+    mg_verbose (mage_target_env parse_dur dur_string join false lay f no_cflags e) <> effective_verbose f e /\
+    mg_debug (mage_target_env parse_dur dur_string join false lay f no_cflags e) <> effective_debug f e.
 Proof. exact before_repair_refuted. Qed.
 
 (* CANDIDATE FINDING on the current tree: C11_same_effect without [nothing_explicitly_off] is false.
@@ -150,7 +208,7 @@ Proof. exact before_repair_refuted. Qed.
    MAGEFILE_TIMEOUT=1m30s mage -t 0 t  runs with a 90 s deadline (the binary: none);
    mage -t -5s t  runs without deadline (the binary: an already expired one). *)
 Theorem C11_same_effect_explicit_off_refuted :
-  let eff_mage f e := eff_of (mage_args toy_parse_dur toy_dur_string jn true lay0 f e) in
+  let eff_mage f e := eff_of (mage_args toy_parse_dur toy_dur_string jn true lay0 f no_cflags e) in
   let eff_bin f e := eff_of (bin_args toy_parse_dur (cflags_of f) e) in
   (exists f e, f_l f = Some false /\ e_list (eff_mage f e) = true /\ e_list (eff_bin f e) = false) /\
   (exists f e, f_h f = Some false /\ e_help (eff_mage f e) = true /\ e_help (eff_bin f e) = false) /\
@@ -182,6 +240,13 @@ Theorem C11_build_context_platform : forall su tag,
 Proof. exact Flags_build.build_ctx_platform. Qed.
 
 Print Assumptions C11_same_effect.
+Print Assumptions C11_command_line.
+Print Assumptions C11_dashdash.
+Print Assumptions C11_dashdash_runs.
+Print Assumptions C11_last_flag_wins.
+Print Assumptions C11_dashdash_rejected.
+Print Assumptions C11_command_line_rejected.
+Print Assumptions C11_list_mode.
 Print Assumptions C11_same_effect_variables.
 Print Assumptions C11_accessors.
 Print Assumptions C11_accessors_compiled.
@@ -200,8 +265,8 @@ Print Assumptions C11_build_context_platform.
    MAGEFILE_DEBUG=1: the hypotheses of C11_same_effect hold and every conclusion is a non-trivial value *)
 Example C11_nonvacuous :
   roundtrip toy_parse_dur toy_dur_string ex_flags /\ no_explicit_off ex_flags /\
-  let te := mage_target_env toy_parse_dur toy_dur_string jn true ex_lay ex_flags ex_env in
-  eff_of (mage_args toy_parse_dur toy_dur_string jn true ex_lay ex_flags ex_env) =
+  let te := mage_target_env toy_parse_dur toy_dur_string jn true ex_lay ex_flags ex_cf ex_env in
+  eff_of (mage_args toy_parse_dur toy_dur_string jn true ex_lay ex_flags ex_cf ex_env) =
     {| e_verbose := true; e_list := false; e_help := false; e_timeout := 90000000000%Z |} /\
   eff_of (bin_args toy_parse_dur (cflags_of ex_flags) ex_env) =
     {| e_verbose := true; e_list := false; e_help := false; e_timeout := 90000000000%Z |} /\
@@ -213,3 +278,27 @@ Example C11_nonvacuous :
   mage_build_dir toy_dur_string jn ex_lay ex_flags ex_env = "proj/magefiles".
 Proof. exact nonvacuous_c11. Qed.
 Print Assumptions C11_nonvacuous.
+
+(* command lines with "--", each replayed on the real mage: mage -v=false -t 5m -- -v -t 1h probe is verbose with a
+   1 h deadline; -- -l lists; -- -x is rejected with status 2; -- -t -5s gives an expired deadline; -- -h probe is
+   help; a malformed -t behind "--" is rejected; "--" as last word runs the default target; "--" behind a target word
+   is a word; a second "--" is consumed by the compiled program *)
+Example C11_dashdash_nonvacuous :
+  let run ws := mage_cmdline toy_pd2 toy_ds2 jn true lay0 ws [] in
+  (exists a te, run ["-v=false"; "-t"; "5m"; "--"; "-v"; "-t"; "1h"; "probe"] = Runs a te ["probe"] /\
+                a_verbose a = true /\ a_timeout a = 3600000000000%Z /\ mg_verbose te = true) /\
+  mode_of (run ["--"; "-l"]) true = Some MList /\
+  run ["--"; "-x"] = Rejected 2 /\
+  (exists a te, run ["--"; "-t"; "-5s"; "probe"] = Runs a te ["probe"] /\ a_timeout a = (-5000000000)%Z) /\
+  mode_of (run ["--"; "-h"; "probe"]) true = Some MHelp /\
+  run ["--"; "-t"; "xyz"; "probe"] = Rejected 2 /\
+  (exists a te, run ["-v"; "--"] = Runs a te [] /\ a_verbose a = true) /\ mode_of (run ["-v"; "--"]) true = Some MRun /\
+  (exists a te, run ["probearg"; "--"] = Runs a te ["probearg"; "--"]) /\
+  (exists a te, run ["--"; "--"; "-l"] = Runs a te ["-l"] /\ a_list a = false) /\
+  (exists a te, run ["-t"; "5m"; "probe"] = Runs a te ["probe"] /\ a_timeout a = 300000000000%Z) /\
+  run ["--"; "--help"] = UsageShown /\ run ["-h"] = UsageShown /\
+  binary_cmdline toy_pd2 ["-v"; "-t"; "1h"; "probe"] [] =
+    Runs (bin_args toy_pd2 {| c_v := Some true; c_l := None; c_h := None; c_t := Some 3600000000000%Z |} [])
+         (bin_target_env toy_pd2 {| c_v := Some true; c_l := None; c_h := None; c_t := Some 3600000000000%Z |} []) ["probe"].
+Proof. exact dashdash_rows. Qed.
+Print Assumptions C11_dashdash_nonvacuous.
